@@ -98,6 +98,16 @@ CHECKS["C18"] = ("DESIGN.md C18",
     "module and is a finite-domain enumeration (13 separators incl. every regex metacharacter, "
     "subjects over separator characters and 'a' up to length 3/4).")
 
+CHECKS["C19"] = ("DESIGN.md C19",
+    "sum/prod/reduce/reverse/zip/enumerate/pairs/chunks/flatten/filter/map_list/range/interval/"
+    "min/max on lists of <= 4 (thorough 5) unbounded symbolic ints against textbook definitions; "
+    "median_low/median_high/median(odd)/min/max against the counting characterisation of order "
+    "statistics (permutation invariance follows); pow(x, y) for unbounded symbolic x and y in 0..12; "
+    "abs/sign unbounded; the eight 32-bit bitwise natives with symbolic 32-bit words as native z3 "
+    "bit-vectors and every shift count 0..40. Finite-domain parts (solver drives an exhaustive "
+    "enumeration): set algebra over a 6-value mixed domain, unique, mean/median(even) under all "
+    "permutations, gcd/lcm on [-20,20]^2, pow witnesses beyond 2^53.")
+
 NA = {}
 
 
